@@ -21,6 +21,7 @@ mod ls;
 mod c07;
 mod c09;
 mod lintonly;
+mod c04;
 mod inputs;
 
 #[path = "/repo/harper-ls/src/git_commit_parser.rs"]
@@ -67,6 +68,7 @@ fn main() {
         "c07" => c07::main(&a),
         "c09" => c09::main(&a),
         "lintonly" => lintonly::main(&a),
+        "c04" => c04::main(&a),
         other => {
             eprintln!("unknown subcommand {other}");
             std::process::exit(2);
